@@ -14,7 +14,9 @@ CHECKS = {
          "rewind_mode::required returns with byte, line and column restored; at/not_at never move the cursor in any outcome; no invocation ever leaves the cursor "
          "before its start; a vetoing bool action restores for every requested mode; every atom peeks before it bumps. Proved by closure of one invariant under "
          "all 25 match() bodies and the match.hpp protocol, then induction on fuel. The model is tied to /repo by a full-trace differential run (every "
-         "Control<Rule>::match invocation, hidden internal rules included) and the property is also evaluated directly on the implementation's own trace."),
+         "Control<Rule>::match invocation, hidden internal rules included) and the property is also evaluated directly on the implementation's own trace; "
+         "in addition every shipped grammar (json, uri, iri, http with its hand-written chunk rules, abnf, integer, raw_string, utf8/16/32, uintN, json_pointer, lua53, proto3) is parsed under a monitor control that "
+         "checks the property at every invocation of every rule (local failure under rewind_mode::required: cursor unmoved; success: never backwards)."),
    note=GENERAL_NOTE + " Modelled: core, convenience, state and try_catch/must rules, all one-argument ascii atoms, utf8 ranges, maximum_rule, contrib rep_one_min_max, contrib predicates (resolved to their byte sets); integer and raw_string rules are covered by their own leaf models (C15, C16); the http chunk rules only by C03's shipped-grammar run.",
    technique="Lean 4 proof by invariant closure + induction on fuel over an executable model; differential correspondence on generated C++ grammars; trace oracle"),
  'C01': dict(engine='matcher-model', design_ref='DESIGN.md §6 C01',
@@ -55,8 +57,8 @@ CHECKS = {
          "hook automaton: start is the first hook of the innermost open invocation of that rule, apply/apply0 come at most once after start and before the closing hook, there is exactly one closing hook, and it agrees "
          "with what the invocation returned (success <=> true, failure <=> false, unwind <=> exception; without unwind() the attempt ends open with the invocation) (C08_balanced, C08_parse); the exact events match() adds "
          "around the body (C08_protocol); per rule #start = #success + #failure + #unwind (C08_coverage). Proved once through a generic induction principle for trace predicates closed under concatenation."),
-   note=GENERAL_NOTE + " 'raise only from a must-context or raise rule' is the theorem C08_raise_source (second trace automaton). The real coverage<>() facility is exercised on corpus grammars with throwing actions and its counters are checked; its code is not modelled.",
-   technique="Lean 4 proof that every model trace is accepted by a hook-protocol stack automaton (+ counting corollary); differential correspondence; same automaton as independent Python oracle; coverage<>() counter check"),
+   note=GENERAL_NOTE + " 'raise only from a must-context or raise rule' is the theorem C08_raise_source (second trace automaton). The facilities built on the hooks are not modelled but run around the logging control, whose log must equal the model's trace of a plain parse: coverage<>() (counters must balance), a tracer hiding internal rules and one showing them with source lines (state_control<>, rotate_states_right). contrib/control_action.hpp is covered by an oracle on the implementation's log (start / success / failure / unwind of action classes on a third of the rules).",
+   technique="Lean 4 proof that every model trace is accepted by a hook-protocol stack automaton (+ counting corollary); differential correspondence, also through coverage<>() and tracer<>; same automaton as independent Python oracle; control_action oracle"),
  'C09': dict(engine='matcher-model', design_ref='DESIGN.md §6 C09',
    text=("Proof (Lean 4): every hand-optimised match() body (until, rep, rep_min_max, rep_opt, if_then_else, strict, star_strict, plus, partial, star_partial, rematch, must, if_must/opt_must, "
          "try_catch_*, enable/disable) refines, in the PEG formalism with labelled failures, the documented expansion of its rule (Spec.expandKind): same accepted inputs, same consumed prefix, "
@@ -106,11 +108,11 @@ CHECKS = {
    note=GENERAL_NOTE + " 'Without the guard' is the off reading of limit_depth (check removed, depth still counted — nothing else reads the counter); the twin-run oracle compares with the same grammar whose guard is removed via a second action family. Depth counts attempts (a rule attempted at depth N+1 raises even if it would fail).",
    technique="Lean 4 invariant proof + exact characterisation of the two guards + twin-run theorems (guarded = unguarded whenever no limit is reached, and that is exactly when no limit_depth raise occurs in the trace); differential correspondence; trace oracles incl. twin run"),
  'C19': dict(engine='leaf-lines', design_ref='DESIGN.md §6 C19',
-   text=("Proof (Lean 4): for all inputs, every offset k <= size, the five eol policies, eager and lazy tracking and any initial line: at() = k with initial byte 0; "
-         "begin_of_line/end_of_line/line_at delimit exactly the specified line with 0 <= bol <= at <= eol <= size and no read outside the data, given initial byte 0 and "
-         "(initial column 1 or not on the first line). The property is false for non-default initial byte/column (known finding F10, witness theorems) and for eager "
+   text=("Proof (Lean 4): for all inputs, every offset k <= size, the five eol policies, eager and lazy tracking and any initial byte and line counter (as repaired by fix F19 of at()): at() = k; "
+         "begin_of_line/end_of_line/line_at delimit exactly the specified line with 0 <= bol <= at <= eol <= size and no read outside the data, given "
+         "initial column 1 or a position not on the first line. The property is false on the first line of an input constructed with initial column != 1 (known finding F10, witness theorem) and for eager "
          "cr_crlf positions after eol consumed CRLF (known finding F11)."),
-   note=GENERAL_NOTE + " Partial with respect to the statement's 'non-default initial counters' clause: that clause is refuted by F10 (KNOWN-FINDING), proved for default counters. size_t wrap-around is not modelled.",
+   note=GENERAL_NOTE + " Partial with respect to the statement's 'non-default initial counters' clause: for the initial column it is refuted by F10 (KNOWN-FINDING); for the initial byte counter it held only after fix F19 and is proved for the repaired code. size_t wrap-around is not modelled.",
    technique="Lean 4 proof with Int offsets about an executable model of at/begin_of_line/end_of_line/line_at; exhaustive differential run under ASan/UBSan; Python line-splitter oracle"),
  'C04': dict(engine='matcher-model', design_ref='DESIGN.md §6 C04',
    text=("Proof (Lean 4): for every grammar table, action attachment (void / vetoing / throwing apply and apply0, disable_action / enable_action / change_action / limit bases), input, mode and fuel: "
